@@ -602,6 +602,9 @@ class VN:
             return r
         label = name or k or unparse(f)
         allargs = [self._as_term(a) for a in args] + [T.app("kw:" + kk, self._as_term(v)) for kk, v in sorted(kw.items())]
+        if k is not None and isinstance(st.env.get(k), T.Poly) and name is None:
+            # callee is a value held in a variable (bound comprehension variable, user callable passed in)
+            return T.app("callv", st.env[k], *allargs)
         return T.app("call:" + label, *allargs)
 
     def bind_values(self, target, call, st):
@@ -697,6 +700,12 @@ class VN:
             return T.app("astype", self._as_term(v), self._as_term(args[0])) if args else v
         if attr in ("reshape", "ravel", "flatten", "transpose", "swapaxes", "view"):
             v = self.ev(f.value, st)
+            if attr == "reshape" and isinstance(v, T.Poly) and len(args) == 1 and isinstance(args[0], T.Poly):
+                va = v.single_atom()
+                if va is not None and va[0] == "app" and va[1] in ("ravel", "flatten") and len(va[2]) == 1:
+                    inner = T.dec(va[2][0])
+                    if isinstance(inner, T.Poly) and args[0] == T.app("attr:shape", inner, real=True):
+                        return inner  # x.ravel().reshape(x.shape) = x
             return T.app(attr, self._as_term(v), *[self._as_term(a) for a in args])
         if attr in ("max", "min", "sum", "mean", "any", "all") and isinstance(f.value, (ast.Name, ast.Attribute, ast.Subscript, ast.Call, ast.BinOp)):
             v = self.ev(f.value, st)
